@@ -31,3 +31,19 @@ Definition check_stream_model (c : ecfg * list ifile * eobs) : bool :=
   | _, EOk _ _ => false
   | _, _ => true
   end.
+
+(* one encoder going on after rejected files: every file is encoded as by a fresh encoder (bytes of that call / error class) *)
+Fixpoint each_ok (cfg : ecfg) (fs : list ifile) (obs : list eobs) : bool :=
+  match fs, obs with
+  | [], [] => true
+  | f :: fs', o :: obs' =>
+      (match encode_fit cfg (mk_file f), o with
+       | Ok x, EOk y _ => list_N_eqb (er_bytes x) y
+       | Err e, EErr e' => e =? e'
+       | Panic _, EErr e' => e' =? 97
+       | _, _ => false
+       end) && each_ok cfg fs' obs'
+  | _, _ => false
+  end.
+Definition check_enc_each (c : ecfg * list ifile * list eobs) : bool :=
+  let '(cfg, fs, obs) := c in each_ok cfg fs obs.
